@@ -194,7 +194,7 @@ func (e *Exec) intrinsic(fn *ssa.Function, name string, args []Value) (Value, bo
 		if a.IsC {
 			return mkFloat(math.Float64frombits(a.C)), true
 		}
-		return e.nmF(Float{Sym: "((_ to_fp 11 53) " + a.Sym + ")"}), true
+		return e.nmF(Float{Sym: "((_ to_fp 11 53) " + a.T() + ")"}), true
 	case "math.Ldexp":
 		a, k := args[0].(Float), args[1].(Int)
 		if a.IsC && k.IsC {
